@@ -630,4 +630,80 @@ theorem modifyAllS_inv (q : T → Nat → T × Nat) (hq : QOK q) :
         · exact Or.inr ⟨h2.1, by omega⟩
       · exact Or.inr ⟨by omega, h1.2⟩
 
+/-! ### `_assign`: one value stored through every path, nothing released -/
+
+/-- The reduction of `_assign` over a list of paths with slices.  `f0` is the counter the reduction
+    started with: the assigned value and everything else that existed then lies below it, everything
+    registered was allocated since. -/
+theorem assignAllS_sound (n : T) (f0 : Nat) (hn : ∀ j ∈ n.ids, j < f0) :
+    ∀ (ps : List PathS) (v : T) (A : List Nat) (f : Nat) (r : T × List Nat × Nat),
+      Inv A f v → f0 ≤ f → (∀ a ∈ A, f0 ≤ a) → assignAllS n ps (v, A, f) = some r →
+      assignVS (abs n) ps (abs v) = some (abs r.1) ∧ Inv r.2.1 r.2.2 r.1 ∧ (∀ a ∈ r.2.1, f0 ≤ a) := by
+  intro ps
+  induction ps with
+  | nil =>
+    intro v A f r inv _ hA h
+    simp only [assignAllS, Option.some.injEq] at h
+    subst h
+    exact ⟨rfl, inv, hA⟩
+  | cons p ps ih =>
+    intro v A f r inv hf hA h
+    simp only [assignAllS] at h
+    split at h
+    · cases h
+    · rename_i v' A' f' log hs
+      have H : Hyp A f v n := by
+        refine ⟨inv.uniq, ?_, ?_, inv.hv, fun j hj => by have := hn j hj; omega, inv.hA⟩
+        · intro y hy
+          cases v with
+          | leaf s => simp [kidsOf] at hy
+          | hole => simp [kidsOf] at hy
+          | node id o c ks => exact tc_kid inv.top y hy
+        · intro a ha hm
+          have := hA a ha
+          have := hn a hm
+          omega
+      have U := updS_res p v n A f _ hs H
+      have inv' : Inv A' f' v' := ⟨U.uniq H, U.tcr, U.hub, U.hAf H⟩
+      rw [applyLog_id log v' U.cons] at h
+      have hA' : ∀ a ∈ A', f0 ≤ a := by
+        intro a ha
+        rcases U.hA1 a ha with h1 | h1
+        · exact hA a h1
+        · have := h1.1; omega
+      obtain ⟨g1, g2, g3⟩ := ih v' A' f' r inv' (by have := U.hf; show f0 ≤ f'; simp only [] at this; omega) hA' h
+      refine ⟨?_, g2, g3⟩
+      simp only [assignVS, updS_abs p v n A f _ hs]
+      exact g1
+
+/-- every in-place write of an `_assign` reduction goes to a cell allocated since the reduction started
+    (no hypothesis on labels beyond the start condition) -/
+theorem assignAllS_writes (n : T) (f0 : Nat) :
+    ∀ (ps : List PathS) (v : T) (A : List Nat) (f : Nat), f0 ≤ f → (∀ a ∈ A, f0 ≤ a) →
+      ∀ (pre : List PathS) (p : PathS), ps = pre ++ [p] →
+      ∀ r1, assignAllS n pre (v, A, f) = some r1 →
+      ∀ r, updS r1.2.1 r1.2.2 p r1.1 n = some r → ∀ e ∈ r.2.2.2, f0 ≤ e.1 := by
+  intro ps v A f hf hA pre
+  induction pre generalizing v A f ps with
+  | nil =>
+    intro p _ r1 h1 r h e he
+    simp only [assignAllS, Option.some.injEq] at h1
+    subst h1
+    rcases (updS_confined p v n A f r h).2.2 e he with h2 | h2
+    · exact hA _ h2
+    · have := h2.1; omega
+  | cons q pre ih =>
+    intro p _ r1 h1 r h e he
+    simp only [assignAllS] at h1
+    split at h1
+    · cases h1
+    · rename_i v' A' f' log hs
+      obtain ⟨g1, g2, _⟩ := updS_confined q v n A f _ hs
+      simp only [] at g1 g2
+      refine ih (pre ++ [p]) (applyLog log v') A' f' (by omega) ?_ p rfl r1 h1 r h e he
+      intro a ha
+      rcases g2 a ha with h2 | h2
+      · exact hA a h2
+      · omega
+
 end Gojq.Heap
